@@ -14,8 +14,68 @@ FN == INSTANCE FreqNorm WITH TOT <- 4096, MaxSyms <- 256, MaxCount <- 0, Variant
 PC == INSTANCE PrefixCode WITH HMaxSyms <- 256, HMaxCount <- 0, Strategy <- "any",
                                hf <- <<>>, forest <- {}, code <- <<>>, hpc <- "done"
 
-KnownIds == {}
+KnownIds == {"C01-KF1", "C01-KF2", "C01-KF3", "C01-KF4"}
 
-DevApplies(id, e, subj, mech) == FALSE
-KnownDeviation(id, e, subj, mech) == FALSE
+Wrong(e) == e.ok /\ (e.y.len # enc[e.b].x.len \/ e.y.h # enc[e.b].x.h)
+
+(* C01-KF1: the FSE normalisers (fse.rs EntropyNormalizer::normalize_frequencies_entropy_     *)
+(* preserving and FseTable::normalize_frequencies_simple) clamp every share to what remains of  *)
+(* the table without reserving a slot for the symbols still to come: a present symbol late in   *)
+(* the alphabet ends with 0 slots (MC_FreqNorm_clamp.cfg is the model).  The encoder then        *)
+(* writes an escape byte pair the decoder knows nothing about: decoding "succeeds" with other    *)
+(* bytes.  Two events carry the finding: (a) the starved table itself, (b) the wrong payload of  *)
+(* a decode under a table TLC has seen to be starved.                                            *)
+G1a(e, subj, mech) == /\ subj.fam = "fse" /\ e.op = "table" /\ e.kind = "fse"
+                      /\ Len(e.freq) = Len(e.norm)
+                      /\ FN!Starved(e.freq, e.norm) # {}
+                      /\ FN!SlotsFit(e.norm, e.total) /\ FN!StartsCumulative(e.start, e.norm)
+G1b(e, subj, mech) == /\ subj.fam = "fse" /\ mech.starved
+                      /\ e.op = "decode" /\ Matching(e.c, e.b, e.n) /\ Wrong(e)
+KF1(e, subj, mech, mech2) ==
+    /\ UNCHANGED csvars
+    /\ mech2 = IF e.op = "table" THEN [mech EXCEPT !.starved = TRUE, !.tables = @ + 1] ELSE mech
+
+(* C01-KF2: FseConfig::realtime() cannot decode what it encodes once the payload reaches 100     *)
+(* bytes (shorter payloads are stored raw): the table is always built with 2^12 slots and the    *)
+(* blob says so, the decoder copies that table_log into its config, and validate() refuses       *)
+(* 4096 > max_table_size = 1024.                                                                 *)
+G2(e, subj, mech) == /\ subj.fam = "fse" /\ subj.variant = "realtime"
+                     /\ e.op = "decode" /\ Matching(e.c, e.b, e.n) /\ ~e.ok
+                     /\ e.err = "Invalid parameter: Table size 4096 exceeds max 1024"
+                     /\ enc[e.b].x.len >= 100
+KF2(e, subj, mech, mech2) == UNCHANGED csvars /\ mech2 = mech
+
+(* C01-KF3: OptimizedDictionaryCompressor finds its matches in the TRAINING text but emits them  *)
+(* as back-references into the OUTPUT: unless the payload is (a prefix of) the training text the *)
+(* decoder copies other bytes.  Trigger: the model was trained on data other than the payload.   *)
+OtherModel(e) == enc[e.b].m.len # enc[e.b].x.len \/ enc[e.b].m.h # enc[e.b].x.h
+G3(e, subj, mech) == /\ subj.fam = "odict"
+                     /\ e.op = "decode" /\ Matching(e.c, e.b, e.n) /\ Wrong(e)
+                     /\ OtherModel(e)
+                     /\ e.y.len = enc[e.b].x.len
+KF3(e, subj, mech, mech2) == UNCHANGED csvars /\ mech2 = mech
+
+(* C01-KF4: the same compressor trained on the payload itself: when the rolling-hash lookup finds  *)
+(* nothing it takes every entry of the range SuffixArray::search returns as an occurrence of the   *)
+(* 3-byte pattern WITHOUT comparing it; SuffixArray::new builds wrong arrays for many texts        *)
+(* (C12-KF1 / C12-KF2), the range then holds non-occurrences and the emitted back-reference copies *)
+(* other bytes.  Trigger: model = payload, right length, other bytes.                              *)
+G4(e, subj, mech) == /\ subj.fam = "odict"
+                     /\ e.op = "decode" /\ Matching(e.c, e.b, e.n) /\ Wrong(e)
+                     /\ ~OtherModel(e)
+                     /\ e.y.len = enc[e.b].x.len
+KF4(e, subj, mech, mech2) == UNCHANGED csvars /\ mech2 = mech
+
+(* guard (state predicate) and action of each deviation; mech2 is the next value of the trace   *)
+(* specification's mech variable                                                                 *)
+DevApplies(id, e, subj, mech) ==
+    \/ id = "C01-KF1" /\ (G1a(e, subj, mech) \/ G1b(e, subj, mech))
+    \/ id = "C01-KF2" /\ G2(e, subj, mech)
+    \/ id = "C01-KF3" /\ G3(e, subj, mech)
+    \/ id = "C01-KF4" /\ G4(e, subj, mech)
+KnownDeviation(id, e, subj, mech, mech2) ==
+    \/ id = "C01-KF1" /\ KF1(e, subj, mech, mech2)
+    \/ id = "C01-KF2" /\ KF2(e, subj, mech, mech2)
+    \/ id = "C01-KF3" /\ KF3(e, subj, mech, mech2)
+    \/ id = "C01-KF4" /\ KF4(e, subj, mech, mech2)
 =============================================================================
